@@ -7,7 +7,7 @@
 lane=$1; k=${2:-0}; n=${3:-1}
 cd "$(dirname "$0")/.." || exit 2
 i=0; bad=0; tot=0
-for d in $(ls -d seeded/C* seeded/A* seeded/B* seeded/D* seeded/E* seeded/F* seeded/G* seeded/H* seeded/I* seeded/J* seeded/K* seeded/L* seeded/N* seeded/P* 2>/dev/null | sort); do
+for d in $(ls -d seeded/C* seeded/A* seeded/B* seeded/D* seeded/E* seeded/F* seeded/G* seeded/H* seeded/I* seeded/J* seeded/K* seeded/L* seeded/N* seeded/P* seeded/Q* 2>/dev/null | sort); do
   s=$(basename $d); id=${s%%-*}
   if [ -n "${SEEDS:-}" ] && ! echo " $SEEDS " | grep -q " $s "; then continue; fi
   if [ $((i % n)) -eq $k ]; then
